@@ -77,6 +77,22 @@ def tight_slack(rng, f, ls, lt, garb):
     return rng.choice([lo, lo, lo + 1, max(lo, lt + ls - 1), lt + ls + 3])
 
 
+# forms of a TEMPORARY string expression with the value of variable %s
+TMPFORMS = ['%s+""', '""+%s', 'MID$(%s,1)', 'LEFT$(%s,255)']
+GC_FUNCS = {  # function -> argument names in evaluation order
+    'LEFT': ['s', 'a'], 'RIGHT': ['s', 'a'], 'MID': ['s', 'a', 'b'], 'INSTR': ['a', 's', 't'],
+    'STRINGS': ['a', 't'], 'CONCAT': ['s', 't'], 'CMP': ['s', 't']}
+
+
+def gc_slack(rng, case):
+    """free string space left before the statement in 'full' mode: room for the temporaries evaluated before the
+    argument that carries the collection, and too little for that argument's own 41-byte temporary."""
+    order = [k for k in GC_FUNCS[case['f']] if case.get(k) is not None]
+    before = order[:order.index(case['gc']['at'])]
+    need = sum(len(case[k]) for k in before if k in 'st' and k in case['gc']['tmp'])
+    return need + rng.choice([0, 1, 5, 20])
+
+
 class Refused(Exception):
     pass
 
@@ -98,7 +114,8 @@ class C09(core.Check):
     RULE = ('every case runs one BASIC statement in a fresh Session (strings set as variables with all 256 byte '
             'values, or inline as CHR$() sums / literals; MID$=/LSET/RSET also on program-code literals and '
             'FIELD buffers); result value or error number compared with the Coq model and with an independent '
-            'Python reference. non-trivial = no error and non-empty string operand; distinct by hash')
+            'Python reference; a gc family evaluates functions/operators on temporary operands with a garbage collection '
+            'forced during a later argument. non-trivial = no error and non-empty string operand; distinct by hash')
     histogram = None
 
     # ------------------------------------------------------------------ cases
@@ -164,6 +181,26 @@ class C09(core.Check):
             c.append({'f': f, 's': A, 't': [88, 89], 'tm': 'prog'})
             c.append({'f': f, 's': A, 't': [88, 89], 'tm': 'field'})
             c.append({'f': f, 's': A, 't': A, 'tm': 'self'})
+        # operands that are temporaries while a LATER argument triggers a string-space garbage collection
+        # (seeded change C09e: MID$ un-rooted its operand before the count was evaluated)
+        W = A + [88, 89, 90]
+        for how in ('fre', 'full'):
+            for form in range(len(TMPFORMS)):
+                g = lambda tmp, at, sl=0: {'tmp': tmp, 'at': at, 'how': how, 'form': form, 'slack': sl}
+                c.append({'f': 'MID', 's': W, 'a': n(2), 'b': n(3), 'gc': g('s', 'b', len(W))})
+                c.append({'f': 'MID', 's': W, 'a': n(2), 'b': n(3), 'gc': g('s', 'a', len(W) + 1)})
+                c.append({'f': 'MID', 's': W, 'a': n(5), 'b': None, 'gc': g('s', 'a', len(W))})
+                c.append({'f': 'LEFT', 's': W, 'a': n(4), 'gc': g('s', 'a', len(W))})
+                c.append({'f': 'RIGHT', 's': W, 'a': n(4), 'gc': g('s', 'a', len(W) + 5)})
+                c.append({'f': 'INSTR', 's': W, 't': [88, 89], 'a': n(2), 'gc': g('st', 't', len(W))})
+                c.append({'f': 'INSTR', 's': W, 't': [88, 89], 'a': n(2), 'gc': g('st', 's')})
+                c.append({'f': 'INSTR', 's': W, 't': [88, 89], 'a': n(2), 'gc': g('st', 'a')})
+                c.append({'f': 'INSTR', 's': W, 't': [67, 68], 'a': None, 'gc': g('st', 't', len(W) + 1)})
+                c.append({'f': 'STRINGS', 'a': n(5), 't': [81, 82], 'gc': g('t', 't')})
+                c.append({'f': 'STRINGS', 'a': n(5), 't': [81, 82], 'gc': g('t', 'a')})
+                c.append({'f': 'CONCAT', 's': W, 't': A, 'gc': g('st', 't', len(W))})
+                c.append({'f': 'CMP', 's': W, 't': W[:8] + [91], 'gc': g('st', 't', len(W))})
+                c.append({'f': 'CMP', 's': W, 't': W, 'gc': g('st', 't', len(W) + 1)})
         # compositions: the result of a string function of V$ as the source of MID$= / LSET / RSET on V$
         # (seeded change C09b: LEFT$ handing back its operand made MID$(A$,2)=LEFT$(A$,255) an overlap copy)
         for tm in ('var', 'prog', 'arr', 'field'):
@@ -299,6 +336,47 @@ class C09(core.Check):
                 c = {'f': f_, 's': s_, 't': t_, 'tm': 'tight', 'slack': tight_slack(rng, f_, len(s_), len(t_), g_), 'garb': g_}
                 if f_ == 'MIDSET':
                     c.update({'a': [rng.randrange(1, len(s_) + 1), 0, ''], 'b': None, 'same': 0})
+                add(c)
+                continue
+            if rng.random() < 0.09:
+                # functions and operators whose string operands are temporaries, with a garbage collection while a
+                # later (or the same) argument is evaluated: FRE("") inside it, or string space filled up so that the
+                # argument's own temporary triggers the collection
+                f_ = rng.choice(['MID', 'MID', 'MID', 'LEFT', 'RIGHT', 'INSTR', 'INSTR', 'STRINGS', 'CONCAT', 'CMP'])
+                how = 'fre' if rng.random() < 0.7 else 'full'
+                mx = 30 if how == 'full' else 120
+                s_ = self._bytes(n=rng.randrange(0, mx))
+                L = len(s_)
+                c = {'f': f_}
+                if f_ != 'STRINGS':
+                    c['s'] = s_
+                if f_ in ('INSTR', 'CONCAT', 'CMP', 'STRINGS'):
+                    r = rng.random()
+                    if f_ == 'INSTR' and s_ and r < 0.6:
+                        i = rng.randrange(L)
+                        c['t'] = s_[i:i + rng.choice([1, 2, 3])]
+                    elif f_ == 'CMP' and r < 0.5:
+                        c['t'] = s_[:rng.randrange(L + 1)] + self._bytes(n=rng.randrange(0, 3))
+                    else:
+                        c['t'] = self._bytes(n=rng.randrange(0, mx))
+                if f_ in ('LEFT', 'RIGHT', 'STRINGS'):
+                    c['a'] = [rng.randrange(0, L + 3), 0, ''] if rng.random() < 0.8 else self._num(L)
+                elif f_ == 'MID':
+                    c['a'] = [rng.randrange(1, L + 2), 0, ''] if rng.random() < 0.8 else self._num(L)
+                    r = rng.random()
+                    c['b'] = None if r < 0.2 else ([rng.randrange(0, L + 3), 0, ''] if r < 0.85 else self._num(L))
+                elif f_ == 'INSTR':
+                    c['a'] = None if rng.random() < 0.3 else ([rng.randrange(1, L + 2), 0, ''] if rng.random() < 0.8
+                                                              else self._num(L))
+                args = [k for k in GC_FUNCS[f_] if c.get(k) is not None]
+                strs = [k for k in args if k in 'st']
+                tmp = ''.join(k for k in strs if rng.random() < 0.85)
+                # mostly the LAST argument carries the collection (everything before it must stay alive)
+                at = args[-1] if rng.random() < 0.6 else rng.choice(args)
+                c['gc'] = {'tmp': tmp, 'at': at, 'how': how, 'form': rng.randrange(len(TMPFORMS)), 'slack': 0,
+                           'op': rng.randrange(6)}
+                if how == 'full':
+                    c['gc']['slack'] = gc_slack(rng, c)
                 add(c)
                 continue
             f = rng.choices(names, ws)[0]
@@ -496,6 +574,8 @@ class C09(core.Check):
             return self._impl_stmt(case)
         if f == 'COMP':
             return self._impl_comp(case)
+        if case.get('gc'):
+            return self._impl_gc(case)
         with common.new_session() as s:
             sm = case.get('sm', 'var')
             S = self._operand(s, 'A$', case['s'], sm) if 's' in case else None
@@ -552,6 +632,93 @@ class C09(core.Check):
             # operands are not modified by a function call
             if sm == 'var' and 's' in case and list(s.get_variable('A$')) != case['s']:
                 raise Refused('operand changed')
+            return [0] + list(s.get_variable('R$'))
+
+    def _impl_gc(self, case):
+        """A function / operator whose string operands are temporaries while one argument's evaluation collects
+        garbage.  The value must be the same as without any of this (operands are values)."""
+        f, gc = case['f'], case['gc']
+        full = gc['how'] == 'full'
+        trig = 'LEN(Z$+"q")' if full else 'FRE("")'
+        with common.new_session() as s:
+            if full:
+                err = self._run(s, 'CLEAR ,9000:DIM F$(120):I=0:K=0')
+                if err is not None:
+                    raise Refused('setup failed with %s' % err)
+            s.set_variable('Z$', b'0123456789' * 4)
+            if 's' in case:
+                s.set_variable('A$', bytes(case['s']))
+            if 't' in case:
+                s.set_variable('B$', bytes(case['t']))
+            s.set_variable('R$', b'?')
+            s.set_variable('R%', 77)
+
+            def pressure():
+                if not full:
+                    return
+                for l in ('G$=STRING$(200,"g"):G$=STRING$(200,"h")',
+                          'WHILE FRE(0)>250:F$(I)=STRING$(100,"x"):I=I+1:WEND',
+                          'K=FRE(0)-%d:F$(I)=STRING$(K,"y"):I=I+1' % gc['slack']):
+                    err = self._run(s, l)
+                    if err is not None:
+                        raise Refused('memory pressure setup failed with %s' % err)
+
+            def sarg(k, var):
+                e = TMPFORMS[gc['form']] % var if k in gc['tmp'] else var
+                if gc['at'] == k:
+                    e = 'LEFT$(%s,255+0*%s)' % (e, trig)
+                return e
+
+            def narg(k):
+                if case.get(k) is None:
+                    return None
+                e = num_text(case[k])
+                return '%s*0+%s' % (trig, e) if gc['at'] == k else e
+            S = sarg('s', 'A$') if 's' in case else None
+            T = sarg('t', 'B$') if 't' in case else None
+            a, b = narg('a'), narg('b')
+            numeric = False
+            if f == 'LEFT':
+                e = 'LEFT$(%s,%s)' % (S, a)
+            elif f == 'RIGHT':
+                e = 'RIGHT$(%s,%s)' % (S, a)
+            elif f == 'MID':
+                e = 'MID$(%s,%s)' % (S, a) if b is None else 'MID$(%s,%s,%s)' % (S, a, b)
+            elif f == 'INSTR':
+                e = 'INSTR(%s,%s)' % (S, T) if a is None else 'INSTR(%s,%s,%s)' % (a, S, T)
+                numeric = True
+            elif f == 'STRINGS':
+                e = 'STRING$(%s,%s)' % (a, T)
+            elif f == 'CONCAT':
+                e = '%s+%s' % (S, T)
+            elif f == 'CMP':
+                ops = ['=', '<>', '>', '>=', '<=', '<']
+                res = {}
+                # in 'full' mode the string space is filled up once, just before the operator gc['op'] (run last)
+                last = ops[gc.get('op', 2) % 6]
+                for op in [o for o in ops if o != last] + [last]:
+                    if op == last:
+                        pressure()
+                    s.set_variable('R%', 77)
+                    err = self._run(s, 'R%%=(%s%s%s)' % (S, op, T))
+                    if err is not None:
+                        return [1, err]
+                    res[op] = s.get_variable('R%')
+                return [0] + [res[o] for o in ops]
+            else:
+                raise Refused('no collection variant of %s' % f)
+            pressure()
+            if numeric:
+                err = self._run(s, 'R%=' + e)
+                if err is not None:
+                    return [1, err]
+                return [0, s.get_variable('R%')]
+            err = self._run(s, 'R$=' + e)
+            if err is not None:
+                return [1, err]
+            for k, var in (('s', 'A$'), ('t', 'B$')):
+                if k in case and list(s.get_variable(var)) != case[k]:
+                    raise Refused('operand changed')
             return [0] + list(s.get_variable('R$'))
 
     @staticmethod
